@@ -381,9 +381,26 @@ func init() {
 				}
 				hk, vk := fmt.Sprintf("db:%d:has", dbID), fmt.Sprintf("db:%d:val", dbID)
 				if !update {
-					// a read-only transaction never changes the store
+					// a read-only transaction never changes the store; it may still fail on its own (closed or
+					// failing database) after the closure returned nil
 					s.Ghost[hk], s.Ghost[vk] = has0, val0
-					return res
+					closureFail := Neq(e.ID, IntC(0))
+					d := s.Decide(closureFail)
+					if d == 1 {
+						return res
+					}
+					verr := ex.errValue(Var(ex.G.name("view_fails"), SBool), "view_err")
+					verr.Lib = true
+					// the transaction's own failure is not the "key not found" answer of a lookup inside it
+					if g := ex.lookupGlobalPath(badgerPkg, "ErrKeyNotFound"); g != nil {
+						if nf, ok := ex.load(s, &PtrV{Nil: TFalse, Obj: ex.globalObj(g)}, nil).(*IfaceV); ok && nf.ID != nil {
+							ex.G.facts[verr.ID.Name] = append(ex.G.facts[verr.ID.Name], Neq(verr.ID, nf.ID))
+						}
+					}
+					if d == -1 {
+						return verr
+					}
+					return &IfaceV{ID: Ite(closureFail, e.ID, verr.ID), JoinOf: e.JoinOf, Lib: e.Lib && len(e.JoinOf) == 0}
 				}
 				// A3: the closure's writes are committed iff it returned nil and the commit succeeded
 				hasN, _ := s.Ghost[hk].(*Term)
